@@ -11,6 +11,7 @@ def check(run):
     run.assumptions = ['poison = a value-dependent raising expression whose own message has no digits']
     ec.run_family(run, 'C14-poison', 'Q_C14', 'R_poison', maxA=3 if quick else 4, opts={'warnings': True})
     ec.run_family(run, 'C14-ragged', 'Q_C14rag', 'R_w2N' if not quick else 'R_q4', maxA=2 if quick else 3, opts={'warnings': True})
+    ec.run_family(run, 'C14-ragged-incl-empty-record', 'Q_C14plain', 'R_w2N', maxA=3, opts={'warnings': True})
     ec.run_family(run, 'C14-join', 'Q_C14join', 'R_poison' if quick else 'R_w2', recsB='R_w2N' if not quick else 'R_q4', maxA=2, maxB=2, opts={'warnings': True})
     ec.run_family(run, 'C14-text', 'Q_C14text', 'R_poison', maxA=2, hdrmodes=(False, True))
     ec.run_family(run, 'C14-text-join', 'Q_C14textjoin', 'R_2x2', recsB='R_2x2', maxA=1, maxB=1, hdrmodes=(False, True))
